@@ -199,8 +199,48 @@ func c17Instances() []c17inst {
 			}},
 		}
 		_ = scf
+		twelve := []int{12, 12, 12, 12, 12, 12}
+		addB := func(o []float64) []float64 {
+			for i := range o {
+				o[i] += float64(c17B[i])
+			}
+			return o
+		}
+		variants = append(variants, []struct {
+			name string
+			run  func(d ref.DT) ([]interface{}, bool, string)
+			gen  func() []float64
+		}{
+			{"SV-incr", func(d ref.DT) ([]interface{}, bool, string) {
+				return resOf(binFns[bd.op](d.Code(sc*6), c17Build(d, bd.b, "C"), tensor.WithIncr(c17Build(d, c17B, "C"))))
+			}, func() []float64 { return addB(zipF(twelve, bd.b, bd.f)) }},
+			{"SV-incr-iter", func(d ref.DT) ([]interface{}, bool, string) {
+				return resOf(binFns[bd.op](d.Code(sc*6), c17Build(d, bd.b, "T"), tensor.WithIncr(c17Build(d, c17B, "C"))))
+			}, func() []float64 { return addB(zipF(twelve, bd.b, bd.f)) }},
+			{"VS-incr-iter", func(d ref.DT) ([]interface{}, bool, string) {
+				return resOf(binFns[bd.op](c17Build(d, c17A, "SS"), d.Code(sc), tensor.WithIncr(c17Build(d, c17B, "C"))))
+			}, func() []float64 { return addB(zipF(c17A, constB, bd.f)) }},
+			{"VS-recv", func(d ref.DT) ([]interface{}, bool, string) {
+				return resOf(binFns[bd.op](c17Build(d, c17A, "C"), d.Code(sc), tensor.WithReuse(c17Build(d, c17B, "C"))))
+			}, func() []float64 { return zipF(c17A, constB, bd.f) }},
+			{"SV-recv", func(d ref.DT) ([]interface{}, bool, string) {
+				return resOf(binFns[bd.op](d.Code(sc*6), c17Build(d, bd.b, "C"), tensor.WithReuse(c17Build(d, c17B, "C"))))
+			}, func() []float64 { return zipF(twelve, bd.b, bd.f) }},
+			{"VS-recv-iter", func(d ref.DT) ([]interface{}, bool, string) {
+				return resOf(binFns[bd.op](c17Build(d, c17A, "T"), d.Code(sc), tensor.WithReuse(c17Build(d, c17B, "C"))))
+			}, func() []float64 { return zipF(c17A, constB, bd.f) }},
+			{"SV-recv-iter", func(d ref.DT) ([]interface{}, bool, string) {
+				return resOf(binFns[bd.op](d.Code(sc*6), c17Build(d, bd.b, "S"), tensor.WithReuse(c17Build(d, c17B, "C"))))
+			}, func() []float64 { return zipF(twelve, bd.b, bd.f) }},
+			{"VS-unsafe", func(d ref.DT) ([]interface{}, bool, string) {
+				return resOf(binFns[bd.op](c17Build(d, c17A, "C"), d.Code(sc), tensor.UseUnsafe()))
+			}, func() []float64 { return zipF(c17A, constB, bd.f) }},
+			{"SV-unsafe", func(d ref.DT) ([]interface{}, bool, string) {
+				return resOf(binFns[bd.op](d.Code(sc*6), c17Build(d, bd.b, "C"), tensor.UseUnsafe()))
+			}, func() []float64 { return zipF(twelve, bd.b, bd.f) }},
+		}...)
 		for _, v := range variants {
-			if (bd.op == "MinBetween" || bd.op == "MaxBetween") && (strings.HasPrefix(v.name, "incr") || v.name == "VS-incr" || v.name == "unsafe") {
+			if (bd.op == "MinBetween" || bd.op == "MaxBetween") && (strings.Contains(v.name, "incr") || strings.Contains(v.name, "unsafe")) {
 				continue // recorded findings of C07
 			}
 			out = append(out, c17inst{"arith", bd.op, v.name, v.run, v.gen, num})
@@ -454,6 +494,34 @@ func c17Instances() []c17inst {
 				return o
 			}, ordn})
 		}
+	}
+	// masked arg-reductions: ties among the unmasked elements, the global extreme is masked
+	mvals := []int{9, 3, 7, 3, 7, 1, 7, 3}
+	mmask := []bool{true, false, false, false, false, true, false, false}
+	for _, am := range []string{"Argmax", "Argmin"} {
+		am := am
+		out = append(out, c17inst{"argreduce", am, "masked-flat", func(d ref.DT) ([]interface{}, bool, string) {
+			back := d.MakeSlice(len(mvals))
+			for i, k := range mvals {
+				ref.SliceSet(back, i, d.Code(k))
+			}
+			t := tensor.New(tensor.WithShape(len(mvals)), tensor.WithBacking(back, append([]bool{}, mmask...)))
+			if am == "Argmax" {
+				return resOf(t.Argmax(tensor.AllAxes))
+			}
+			return resOf(t.Argmin(tensor.AllAxes))
+		}, func() []float64 {
+			best := -1
+			for i, k := range mvals {
+				if mmask[i] {
+					continue
+				}
+				if best < 0 || (am == "Argmax" && k > mvals[best]) || (am == "Argmin" && k < mvals[best]) {
+					best = i
+				}
+			}
+			return []float64{float64(best)}
+		}, ordn})
 	}
 	// map
 	for _, v := range []struct{ name, lay string }{{"contig", "C"}, {"iter", "T"}, {"iter2", "SS"}, {"unsafe", "C"}} {
